@@ -152,6 +152,8 @@ def disc_names(l):
 
 
 def run(ctx):
+    from . import c04 as _c04
+
     rng = ctx.rng
     ctx.rule = ("(i) every reachable layout (TLC) x fillings parsed and fed back into the constructor; (ii) random attribute subsets; "
                 "(iii) raw sweeps of every (type, scale) pair (1-byte exhaustive, 2-byte exhaustive in thorough, wider boundary+random). "
@@ -170,13 +172,15 @@ def run(ctx):
                 continue
             for pat in ("zero", "ones", "min", "max", "count", "rand", "fpedge", "small") if not ctx.thorough else ("zero", "ones", "min", "max", "one", "count", "rand", "rand", "fpedge", "fpedge", "small"):
                 P0 = build.zero_hp(l, walk.fill(l, pat, rng, cfgdb))
-                yield ("c03", {"_k": "rt:%d:%s:%s" % (li, pat, P0.hex()[:48]), "lay": l, "P0": P0.hex(), "only": None})
+                yield ("c03", {"_k": "rt:%d:%s:%s" % (li, pat, P0.hex()[:48]), "lay": l, "P0": P0.hex(), "only": None,
+                               "alias": _c04.alias_names(ctx.defs, l["cls"], l["id"])})
             # (ii) random subset: drop ~half of the non-structural attributes
             P0 = build.zero_hp(l, walk.fill(l, "rand", rng, cfgdb))
             keep = set(f["n"] for f in l["fixes"]) | set(disc_names(l))
             names = [e["n"] for e in l["lay"] if e["x"] == 1 and not e["n"].startswith("_HP")]
             only = [n for n in names if n in keep or rng.random() < 0.5]
-            yield ("c03", {"_k": "sub:%d:%s" % (li, P0.hex()[:48]), "lay": l, "P0": P0.hex(), "only": only})
+            yield ("c03", {"_k": "sub:%d:%s" % (li, P0.hex()[:48]), "lay": l, "P0": P0.hex(), "only": only,
+                           "alias": _c04.alias_names(ctx.defs, l["cls"], l["id"])})
 
     run_batch(ctx, MODULE, CFG, gen(), build.OBSERVERS, sigfn, negfn, chunk=5000)
 
@@ -199,6 +203,9 @@ def run(ctx):
                 continue
             P0 = build.zero_hp(l, walk.fill(l, "count", rng, cfgdb))
             yield ("c03", {"_k": "hist:%d:%s" % (li, P0.hex()[:48]), "lay": l, "P0": P0.hex(), "only": None, "hist": hists[li % len(hists)]})
+            if l["c"] == 1:
+                # ... and right after the same class / ID was tried in the other modes
+                yield ("c03", {"_k": "sib:%d:%s" % (li, P0.hex()[:48]), "lay": l, "P0": P0.hex(), "only": None, "hist": history.siblings(l, P0)})
 
     run_batch(ctx, MODULE, CFG, gen_hist(), build.OBSERVERS, sigfn, negfn, chunk=5000)
     ctx.extra["hostile_histories"] = len(hists)
